@@ -132,6 +132,9 @@ func runC19(w *World) {
 					body := fmt.Sprintf("post-%d-by-%d:%s", id, idx, randText(orng, op.N[0]))
 					formatted := boardPost(c.Name, body)
 					bodies[id] = formatted
+					if cfg["reloads"] > 0 && id%2 == 0 {
+						w.ReloadDuring((cfg["reload_delay"] + id*7) % 40)
+					}
 					inv := w.Sim.Step
 					rep, ok := c.Do(rp.TOldPostNews, rp.FS(rp.FData, body))
 					ret := w.Sim.Step
